@@ -162,7 +162,7 @@ def register(reg):
     reg.contract(
         "werkzeug/datastructures/headers.py:_str_header_value", modifies=[], prop=P, replay="pure",
         cases=[{"value": "str"}, {"value": "int"}], returns="str",
-        ensures=["clean(result)", "implies(isinstance(value, str), result == value)"],
+        ensures=["clean(result)", "result == (value if isinstance(value, str) else str(value))"],
         raises={"ValueError": "isinstance(value, str) and not clean(value)"},
     )
     H = reg.model("Headers", cls="werkzeug/datastructures/headers.py:Headers", fields={"_list": "List[Tuple[str, str]]"})
